@@ -78,9 +78,9 @@ def sweep_escape(sw, r, tier):
             if PLACEHOLDER_RE.search(t):
                 continue
             check_literal(sw, t)
-    for _ in range(300 if tier == "quick" else 6000):
+    for _ in range(1500 if tier == "quick" else 12000):
         check_literal(sw, gen_literal(r, r.randint(3, 12)))
-    for _ in range(200 if tier == "quick" else 4000):
+    for _ in range(1000 if tier == "quick" else 8000):
         k = r.randint(1, 3)
         phs = [r.choice(PLACEHOLDERS) for _ in range(k)]
         lits = [gen_literal(r, r.randint(0, 5)) for _ in range(k + 1)]
@@ -91,7 +91,7 @@ def sweep_escape(sw, r, tier):
         check_with_placeholders(sw, r, lits, phs)
     # embedded in a group format: the literal file-name text matches itself in a real group parse
     G = make_group({"name": Naming, "serial": Serial})
-    for _ in range(60 if tier == "quick" else 1200):
+    for _ in range(300 if tier == "quick" else 2500):
         pre, mid, post = (gen_literal(r, r.randint(0, 4)) for _ in range(3))
         fmt_text = pre + "{name:%s}" + mid + "{serial:%n}" + post
         if [m.group() for m in PLACEHOLDER_RE.finditer(fmt_text)] != ["{name:%s}", "{serial:%n}"]:
